@@ -18,7 +18,7 @@ NAMES_CHR = ["sTxt", "cName"]
 NAMES_PTR = ["pRef"]
 NAMES_DT = ["objA"]
 FUNCS = ["fUser", "gCalc"]
-INTRINSICS1 = ["sin", "cos", "abs", "sqrt", "exp"]
+INTRINSICS1 = ["sin", "cos", "abs", "sqrt", "exp", "dsqrt", "alog", "float", "sngl", "dabs", "tanh", "Dble", "aint"]
 INTRINSICS2 = ["max", "min", "mod"]
 USER_NAMES = set()
 
